@@ -155,3 +155,105 @@ Proof.
     intros f d0 Hd0. unfold FunTyping.find_def in Hd0. simpl in *. rewrite E1.
     destruct (String.eqb (fdname d) f); [inversion Hd0; subst; eauto|]. apply Hf. exact Hd0.
 Qed.
+
+(* ---------- the run of check, opened up (with the run over the definitions) ---------- *)
+Lemma check_gen_run_defs : forall eager p q, prog_names_ok p = true -> check_gen eager p = COk q ->
+  let ts := tdecls (fpdecls p) in let fs := fdefs (fpdecls p) in
+  exists st st1 das cos,
+    poly_world ts fs /\ tables ts fs st /\ pinv ts st
+    /\ check_defs_gen eager fs st = COk (fcpdefs q, st1) /\ pinv ts st1
+    /\ collect_types st1 (st_types st1) = COk (das, cos)
+    /\ q = mkfcprog (sort_by_name fdaname das) (sort_by_name fcoaname cos) (fcpdefs q)
+    /\ (forall d, In d fs -> ctx_names_ok (fdctx d) = true /\ ty_names_ok (fdret d) = true /\ term_names_ok (fdbody d) = true).
+Proof.
+  intros eager p q Hm H ts fs. unfold check_gen in H.
+  apply cbind_ok in H. destruct H as [st [Hb H]].
+  destruct (build_symbol_table_spec p st Hb) as [Tb [Hn [Hty [Hc [Hd Hps]]]]].
+  pose proof (poly_world_of_prog p Hm Hn (fun td Hin => proj1 (Hps td Hin))) as W.
+  unfold check_with_table_gen in H.
+  apply cbind_ok in H. destruct H as [[] [Hdecls H]].
+  apply cbind_ok in H. destruct H as [[defs st1] [Hdefs H]].
+  apply cbind_ok in H. destruct H as [[das cos] [Hcol H]]. inversion H; subst q. clear H.
+  rewrite defs_of_fdefs in Hdefs.
+  assert (Hnm : forall d, In d (fdefs (fpdecls p)) ->
+            ctx_names_ok (fdctx d) = true /\ ty_names_ok (fdret d) = true /\ term_names_ok (fdbody d) = true).
+  { intros d Hin. destruct (PW_defs _ _ W d Hin). splits; auto. eapply names_def_body; eassumption. }
+  destruct (check_defs_gen_psound _ _ W eager _ st defs st1 Hnm Tb (pinv_start _ st Hty Hc Hd) Hdefs) as [_ [I1 _]].
+  exists st, st1, das, cos. simpl. splits; auto. apply pinv_start; assumption.
+Qed.
+
+(* no declared type is named like the continuation type of the Core checker *)
+Definition no_cont_decl (p : fprog) : bool :=
+  forallb (fun td => negb (String.eqb (td_name td) "_Cont")) (tdecls (fpdecls p)).
+
+Lemma Forall2_names : forall {Y} (g : Y -> fname) (P : fname -> Y -> Prop) xs cs,
+  Forall2 (fun x c => g c = x /\ P x c) xs cs -> map g cs = xs.
+Proof. intros Y g P xs cs H. induction H as [|x c l l' [E _] _ IH]; simpl; [reflexivity|]. rewrite E, IH. reflexivity. Qed.
+Lemma Forall2_map_eq : forall {X Y Z} (f : X -> Z) (g : Y -> Z) l1 l2,
+  Forall2 (fun x y => g y = f x) l1 l2 -> map g l2 = map f l1.
+Proof. intros X Y Z f g l1 l2 H. induction H; simpl; [reflexivity|]. rewrite H, IHForall2. reflexivity. Qed.
+
+Lemma check_gen_decls_tyguard : forall eager p q,
+  prog_names_ok p = true -> no_cont_decl p = true -> check_gen eager p = COk q -> decls_tyguard q = true.
+Proof.
+  intros eager p q Hm Hnc H.
+  destruct (check_gen_run_defs eager p q Hm H) as [st [st1 [das [cos [W [Tb [I0 [Hdefs [I1 [Hcol [Hq Hnm]]]]]]]]]]].
+  pose proof (check_instance_names_distinct eager p q Hm H) as Hnd.
+  pose proof (decl_names_perm st1 das cos (fcpdefs q) Hcol) as Hp. rewrite <- Hq in Hp.
+  assert (Hnames : map ctname (cdata_of q ++ ccodata_of q) = map new_id (decl_names q)).
+  { unfold cdata_of, ccodata_of, decl_names. rewrite !map_app, !map_map. reflexivity. }
+  assert (Hkey : forall k, In k (decl_names q) -> exists pol targs xs td,
+             aget (st_types st1) k = Some (pol, targs, xs) /\ In td (tdecls (fpdecls p))
+             /\ k = (td_name td ++ print_targs targs)%string /\ td_pol td = pol /\ xs = map xs_name (td_xtors td)
+             /\ targs_ok (tdecls (fpdecls p)) td targs).
+  { intros k Hk. assert (Hk1 : In k (ikeys st1)) by (eapply Permutation_in; eassumption).
+    unfold ikeys in Hk1. apply in_map_iff in Hk1. destruct Hk1 as [[k' [[pol targs] xs]] [Ek Hin]]. simpl in Ek. subst k'.
+    pose proof (In_aget _ _ _ (pi_nodup _ _ I1) Hin) as Hg.
+    destruct (pi_types _ _ I1 _ _ _ _ Hg) as [td [Htd [Ekey [Hpol [Hxs Hok]]]]].
+    exists pol, targs, xs, td. splits; auto. }
+  unfold decls_tyguard. cbv zeta. rewrite Hnames, (nodup_by_new_id _ Hnd). simpl.
+  assert (Hc : existsb (fun t => cident_eqb (ctname t) cont_name_fs) (cdata_of q ++ ccodata_of q) = false).
+  { apply not_true_iff_false. intros E. apply existsb_exists in E. destruct E as [t [Ht E]].
+    assert (Hin : In (ctname t) (map new_id (decl_names q))) by (rewrite <- Hnames; apply in_map; exact Ht).
+    apply in_map_iff in Hin. destruct Hin as [k [Ek Hk]]. rewrite <- Ek in E. unfold cont_name_fs in E.
+    change ("_Cont", 0%N) with (new_id "_Cont") in E. rewrite cid_eqb_new_id in E. apply String.eqb_eq in E. subst k.
+    destruct (Hkey _ Hk) as [pol [targs [xs [td [Hg [Htd [Ekey [Hpol [Hxs Hok]]]]]]]]].
+    destruct (instance_name_inj "_Cont" [] (td_name td) targs eq_refl
+                (name_ok_no_delim _ (PW_tnames _ _ W td Htd)) eq_refl (wf_tys_names_ok _ _ W _ (proj2 Hok))
+                ltac:(rewrite <- Ekey; reflexivity)) as [En _].
+    unfold no_cont_decl in Hnc. rewrite forallb_forall in Hnc. specialize (Hnc td Htd). rewrite <- En in Hnc. discriminate. }
+  rewrite Hc. simpl.
+  (* definition names *)
+  destruct (check_defs_gen_sigs _ _ _ _ _ Hdefs) as [En _].
+  assert (Hdn : nodup_str (map fdname (fcpdefs q)) = true).
+  { rewrite nodup_str_eq, En. pose proof (PW_names _ _ W) as N. unfold names_ok in N.
+    apply andb_true_iff in N. tauto. }
+  rewrite Hdn, andb_true_r.
+  (* xtor names *)
+  destruct (collect_types_spec _ _ _ _ Hcol) as [_ [Hda Hco]].
+  pose proof (PW_names _ _ W) as N. unfold names_ok in N.
+  apply andb_true_iff in N. destruct N as [N _]. apply andb_true_iff in N. destruct N as [N Nco].
+  apply andb_true_iff in N. destruct N as [_ Nda].
+  assert (Hx : forall pol, nodup (xtor_names pol (tdecls (fpdecls p))) = true ->
+             forall name targs xs, In (name, (pol, targs, xs)) (st_types st1) -> NoDup xs).
+  { intros pol Npol name targs xs Hin.
+    pose proof (In_aget _ _ _ (pi_nodup _ _ I1) Hin) as Hg.
+    destruct (pi_types _ _ I1 _ _ _ _ Hg) as [td [Htd [Ekey [Hpol [Hxs Hok]]]]].
+    apply nodup_NoDup. pose proof (nodup_flat_map_in _ _ td Npol Htd) as Hn. simpl in Hn.
+    rewrite Hpol, fpol_eqb_refl in Hn. rewrite Hxs. exact Hn. }
+  rewrite forallb_app. apply andb_true_iff. split; apply forallb_forall; intros t Ht.
+  - unfold cdata_of in Ht. apply in_map_iff in Ht. destruct Ht as [d [<- Hd]].
+    rewrite Hq in Hd. simpl in Hd. apply (Permutation_in _ (sort_by_name_perm fdaname das)) in Hd.
+    rewrite Forall_forall in Hda. destruct (Hda d Hd) as [[name [[pol targs] xs]] [He Hof]]. simpl in Hof.
+    destruct Hof as [-> [_ [_ HF]]]. simpl. rewrite map_map. simpl.
+    assert (Exs : map fctname (fdactors d) = xs).
+    { eapply Forall2_names. exact HF. }
+    rewrite <- (map_map fctname new_id), Exs. apply nodup_by_new_id. exact (Hx FData Nda name targs xs He).
+  - unfold ccodata_of in Ht. apply in_map_iff in Ht. destruct Ht as [d [<- Hd]].
+    rewrite Hq in Hd. simpl in Hd. apply (Permutation_in _ (sort_by_name_perm fcoaname cos)) in Hd.
+    rewrite Forall_forall in Hco. destruct (Hco d Hd) as [[name [[pol targs] xs]] [He Hof]]. simpl in Hof.
+    destruct Hof as [-> [_ [_ HF]]]. simpl. rewrite map_map. simpl.
+    assert (Exs : map fdtname (fcodtors d) = xs).
+    { eapply Forall2_names. exact HF. }
+    rewrite <- (map_map fdtname new_id), Exs. apply nodup_by_new_id. exact (Hx FCodata Nco name targs xs He).
+Qed.
